@@ -12,3 +12,26 @@ field("Metrics.collecting", "bool")
 field("Metrics.c_payload_add", "int")
 field("Metrics.c_payload_mul", "int")
 field("Metrics.c_payload_update", "int")
+
+# fiber.py -- struct-of-lists representation and bookkeeping
+field("Fiber.coords", "list[int]")                 # integer coordinates (tuple coordinates: bounded tier only)
+field("Fiber.payloads", "list[Payload|Fiber]")     # leaf level: Payload boxes; interior level: Fibers (dynamic class tag)
+field("Fiber._ordered", "bool")
+field("Fiber._unique", "bool")
+field("Fiber._saved_pos", "int")
+field("Fiber._saved_count", "int")
+field("Fiber._saved_dist", "int")
+field("Fiber._is_lazy", "bool")
+field("Fiber._max_coord", "opt[int]")
+field("Fiber._owner", "opt[Rank]")
+field("Fiber._rank_attrs", "RankAttrs")
+field("Fiber._active_range", "opt[tuple[int,int]]")
+# ghost abstractions of depth-recursive / rank-delegated notions (DESIGN section 3); their agreement with the
+# real getDefault()/isEmpty() is established by the trusted/bounded contracts of those two functions
+field("Fiber.g_default", "U")        # value of the leaf default this fiber's rank reports
+field("Fiber.g_empty", "bool")       # this (sub-)fiber holds no non-default leaf
+field("Fiber.g_leaf", "bool")        # payloads are Payload boxes (leaf rank) rather than Fibers
+# rank.py
+field("Rank.fibers", "list[Fiber]")
+field("Rank.next_rank", "opt[Rank]")
+field("Rank._attrs", "RankAttrs")
